@@ -17,7 +17,7 @@ Definition ex_parse_num (s : string) : option float :=
 Definition ex_gp (name : string) (sg : pydict string) (objs : list string) : gpred :=
   {| gp_name := name; gp_sig := sg; gp_map := combine (dkeys sg) objs; gp_pos := true |}.
 Definition ex_pf (name : string) (sg : pydict string) (v : float) (rep : pydict nat) : pfun :=
-  {| pf_name := name; pf_sig := sg; pf_val := v; pf_rep := rep |}.
+  {| pf_name := name; pf_sig := sg; pf_val := v; pf_rep := rep; pf_int := false |}.
 
 (* (p a) (p b) (q a a) (z), (f a) = 2.5, (g a a) = -0.0 [as the problem parser stores it], (h) = nan *)
 Definition ex_s : mstate :=
@@ -104,3 +104,41 @@ Proof.
   - apply Permutation_rev.
   - vm_compute. intros E. discriminate E.
 Qed.
+
+(* ---------- int values (findings D90 / D91) ---------- *)
+(* PDDLFunction stores the object it is given.  (h) = 1 stored as the Python int 1 (set_value(1)) against (h) = 1.0;
+   a never-set fluent (the default stored_value is the int 0) against (h) = 0.0: the same values, other texts. *)
+Definition ex_pf_int (name : string) (sg : pydict string) (v : float) : pfun :=
+  {| pf_name := name; pf_sig := sg; pf_val := v; pf_rep := []; pf_int := true |}.
+Definition ex_one_int : mstate := {| st_init := false; st_preds := []; st_fluents := [("(h )", ex_pf_int "h" [] 1)] |}.
+Definition ex_one_float : mstate := {| st_init := false; st_preds := []; st_fluents := [("(h )", ex_pf "h" [] 1 [])] |}.
+Definition ex_unset : mstate := {| st_init := false; st_preds := []; st_fluents := [("(h )", ex_pf_int "h" [] 0)] |}.
+Definition ex_zero_float : mstate := {| st_init := false; st_preds := []; st_fluents := [("(h )", ex_pf "h" [] 0 [])] |}.
+
+Lemma ex_int_pair s t :
+  (s = ex_one_int /\ t = ex_one_float) \/ (s = ex_unset /\ t = ex_zero_float) ->
+  state_names_ok s = true /\ state_names_ok t = true /\ nums_ok ex_num_text ex_parse_num (values s ++ values t) /\
+  State_same (den s) (den t) /\ state_eq ex_num_text s t = false /\
+  serialize ex_num_text s <> serialize ex_num_text t.
+Proof.
+  intros [[-> ->]|[-> ->]].
+  - split; [vm_compute; reflexivity|]. split; [vm_compute; reflexivity|]. split.
+    { split.
+      - intros x H. vm_compute in H. in_cases; (eexists; split; [vm_compute; reflexivity|vm_compute; reflexivity]).
+      - intros x y Hx Hy. vm_compute in Hx, Hy. unfold num_stable. in_cases; vm_compute; intros E; try reflexivity; discriminate E. }
+    split; [apply state_same_iff; vm_compute; reflexivity|]. split; [vm_compute; reflexivity|].
+    vm_compute. intros E. discriminate E.
+  - split; [vm_compute; reflexivity|]. split; [vm_compute; reflexivity|]. split.
+    { split.
+      - intros x H. vm_compute in H. in_cases; (eexists; split; [vm_compute; reflexivity|vm_compute; reflexivity]).
+      - intros x y Hx Hy. vm_compute in Hx, Hy. unfold num_stable. in_cases; vm_compute; intros E; try reflexivity; discriminate E. }
+    split; [apply state_same_iff; vm_compute; reflexivity|]. split; [vm_compute; reflexivity|].
+    vm_compute. intros E. discriminate E.
+Qed.
+
+(* the texts: "(:state (= (h ) 1))" against "(:state (= (h ) 1.0))" *)
+Example ex_int_texts :
+  serialize ex_num_text ex_one_int = "(:state (= (h ) 1))" +++ LFs /\
+  serialize ex_num_text ex_one_float = "(:state (= (h ) 1.0))" +++ LFs /\
+  serialize ex_num_text ex_unset = "(:state (= (h ) 0))" +++ LFs.
+Proof. repeat split; vm_compute; reflexivity. Qed.
